@@ -5,6 +5,25 @@ V = os.path.dirname(os.path.dirname(os.path.abspath(__file__)))
 props = [json.loads(l) for l in open(os.path.join(V, "properties.jsonl"))]
 
 CLAIMS = {
+ "C02": dict(
+   text="For every well-formed routine set of the bounded families (all flow graphs <=4 ops over a 9-kind alphabet, every opcode family "
+        "with special syntax, random graphs, renumbered compile results, re-laid-out variants whose equivalence TLC checks first) the "
+        "decompiled text is parsed to a node table and TLC model-checks (a) text-by-ExpsSemantics x input and (b) recompiled x input "
+        "(ByteEquiv.tla) on the SSB machine for every outcome of every test, plus routine tables; WellFormed is re-checked in the spec.",
+   ref="§3 C02", technique="TLC model checking of two lock-step products (source semantics x input bytecode, input x recompiled bytecode) on recorded decompiler output",
+   note="bounded families; nine listed known findings (input shapes the decompiler mishandles) are suppressed by shape signature; timeouts/raises/fallbacks belong to C06"),
+ "C06": dict(
+   text="Every convert() call on the well-formed families of C02 plus hand-built unstructurable graphs is recorded as an outcome trace and "
+        "validated by TLC against DecompOutcome.tla (Start->Structured | Start->Abort->Fallback->Recompiled; no Raised action; marker "
+        "line; op-for-op exactness via Ssb!SameUpToRenumber and routine-table equality).",
+   ref="§3 C06", technique="TLC trace validation of recorded convert() outcome traces against the DecompOutcome.tla state machine",
+   note="calls exceeding the 10 s hard limit are inconclusive (counted, not judged): the property sets no deadline"),
+ "C13": dict(
+   text="Every program of the enumerated flat family (each if-chain/switch shape alone, in context and in ordered pairs) plus random flat "
+        "programs is compiled, renumbered and decompiled; TLC scans the text's node table with Structuring.tla (no jump statement, "
+        "ledger of printed operations equals the source's, source re-checked to be in the family).",
+   ref="§3 C13", technique="TLC validation of recorded compile->decompile round trips against the Structuring.tla scan machine",
+   note="bounded family (<=3 items exhaustive by pairs, <=8 random); consistent switch/case header pairs; one listed known finding"),
  "C03": dict(
    text="TLC runs the Assembler.tla state machine (Place every op at a fresh offset, then Patch every jump-carrying op against the "
         "placed offsets, tables aligned, no pseudo op, table arity) over every recorded compile result of the ExplorerScript "
